@@ -5,7 +5,7 @@ from ..core import AnalysisError, norm, walk_no_nested
 
 META = {
     'design_ref': 'DESIGN.md §5 C20',
-    'technique': 'abstract interpretation (sa.heap) of every collection-returning method, reverse(), insert() histories, the reader, read() into a non-empty collection and the queries (present and absent names, on read-built and derived collections, with a frame condition on both indexes) on a generic finite relation with a reference relation as oracle (content, rdb = inverse(db), identity of set objects for ownership); in addition interpretation over a relation algebra (R, inverse, restriction) which decides the paired-assignment obligation for all relations where the method is in its vocabulary; ownership of every set object of the receiver; re-insert histories; pairwise distinct set objects in what a reader builds; identity of the index dictionaries of every derived collection, also under filters that keep everything; inserts interpreted while a reverse() view shares the dictionaries (every live collection object keeps inverse indexes); a method that returns a collection it got from another method of the class is judged on the interpreted result; views of collections whose tag index is empty (a view shares both index dictionaries or none); queries over several names and the pair iterators interpreted twice on the generic relation: the answer of the reference relation, and both indexes -- every set in them -- as they were before',
+    'technique': 'abstract interpretation (sa.heap) of every collection-returning method, reverse(), insert() histories, the reader, read() into a non-empty collection and the queries (present and absent names, on read-built and derived collections, with a frame condition on both indexes) on a generic finite relation with a reference relation as oracle (content, rdb = inverse(db), identity of set objects for ownership); in addition interpretation over a relation algebra (R, inverse, restriction) which decides the paired-assignment obligation for all relations where the method is in its vocabulary; ownership of every set object of the receiver; re-insert histories; pairwise distinct set objects in what a reader builds; identity of the index dictionaries of every derived collection, also under filters that keep everything; inserts interpreted while a reverse() view shares the dictionaries (every live collection object keeps inverse indexes); a method that returns a collection it got from another method of the class is judged on the interpreted result; views of collections whose tag index is empty (a view shares both index dictionaries or none); queries over several names and the pair iterators interpreted twice on the generic relation: the answer of the reference relation, and both indexes -- every set in them -- as they were before; read / reverse / read / reverse: a view taken after a second read shows the collection as it is',
     'level_text': 'Static decision for every derivation method: assuming the receiver\'s indexes are inverse, the returned collection\'s '
                   'indexes are syntactically inverse relation expressions; no returned collection shares a set that a later insert() on it '
                   'or on its parent mutates in place unless both dictionaries are shared; all stores type-check under '
